@@ -16,7 +16,8 @@
 //!             `P` the call panicked (history stops there: the mutex is poisoned afterwards)
 //!   P  <ticks>  <ntasks>  <G>  <T>  <D>  <vm obs>  <wasm obs>
 //!       G = global-scope requests, T = per task `;`-separated request lists, D = requests issued by dsp
-//!       request = `<a|r>:<f64 bits hex>:<target>:<guard|->`  (a: `tK@C`, r: `tK@(now+C)`, guard g: `if (now < g) {..}`), `,`-separated, `.` if none
+//!       request = `<a|r>:<f64 bits hex>:<target>:<guard|->[:l]`  (a: `tK@C`, r: `tK@(now+C)`, guard g: `if (now < g) {..}`,
+//!                 `:l`: the closure is written `| |{ tK() }` instead of `tK`), `,`-separated, `.` if none
 //!       obs = `,`-separated 16-hex-digit f64 bit patterns of dsp's output per sample, then `PANIC` if the runtime panicked
 //!             in the following sample (`ERR:<what>` if the program did not compile)
 use mmh::rng::Rng;
@@ -158,11 +159,17 @@ struct Req {
     c: f64,
     target: usize,
     guard: Option<u64>,
+    /// written as `| |{ tK() }@…` (an anonymous closure) instead of `tK@…`
+    lambda: bool,
 }
 
 #[derive(Clone, Debug)]
 struct Table {
     ticks: u64,
+    /// rendered in the style of `scheduler_counter.mmm`: one `mk(p, t0)` instance per task (a `letrec` closure with
+    /// upvalues that re-schedules itself, started inside `mk`), the counter read through a getter closure.
+    /// Requires: task i's body is exactly one unguarded `ti@(now+p)`, one global `ti@t0` per task, nothing from dsp.
+    closure_style: bool,
     ntasks: usize,
     global: Vec<Req>,
     tasks: Vec<Vec<Req>>,
@@ -176,11 +183,12 @@ fn reqs_to_string(v: &[Req]) -> String {
     v.iter()
         .map(|r| {
             format!(
-                "{}:{:016x}:{}:{}",
+                "{}:{:016x}:{}:{}{}",
                 if r.abs { "a" } else { "r" },
                 r.c.to_bits(),
                 r.target,
-                r.guard.map_or("-".to_string(), |g| g.to_string())
+                r.guard.map_or("-".to_string(), |g| g.to_string()),
+                if r.lambda { ":l" } else { "" }
             )
         })
         .collect::<Vec<_>>()
@@ -199,6 +207,7 @@ fn parse_reqs(s: &str) -> Vec<Req> {
                 c: f64::from_bits(u64::from_str_radix(f[1], 16).unwrap()),
                 target: f[2].parse().unwrap(),
                 guard: if f[3] == "-" { None } else { Some(f[3].parse().unwrap()) },
+                lambda: f.len() > 4 && f[4] == "l",
             }
         })
         .collect()
@@ -206,9 +215,10 @@ fn parse_reqs(s: &str) -> Vec<Req> {
 
 fn table_to_string(t: &Table) -> String {
     format!(
-        "P\t{}\t{}\t{}\t{}\t{}",
+        "P\t{}\t{}{}\t{}\t{}\t{}",
         t.ticks,
         t.ntasks,
+        if t.closure_style { "c" } else { "" },
         reqs_to_string(&t.global),
         t.tasks.iter().map(|v| reqs_to_string(v)).collect::<Vec<_>>().join(";"),
         reqs_to_string(&t.dsp)
@@ -218,7 +228,8 @@ fn table_to_string(t: &Table) -> String {
 fn parse_table(f: &[&str]) -> Table {
     Table {
         ticks: f[1].parse().unwrap(),
-        ntasks: f[2].parse().unwrap(),
+        closure_style: f[2].ends_with('c'),
+        ntasks: f[2].trim_end_matches('c').parse().unwrap(),
         global: parse_reqs(f[3]),
         tasks: f[4].split(';').map(parse_reqs).collect(),
         dsp: parse_reqs(f[5]),
@@ -235,7 +246,8 @@ fn fmt_f(c: f64) -> String {
 }
 
 fn req_src(r: &Req) -> String {
-    let at = if r.abs { format!("t{}@{}", r.target, fmt_f(r.c)) } else { format!("t{}@(now+{})", r.target, fmt_f(r.c)) };
+    let clo = if r.lambda { format!("| |{{ t{}() }}", r.target) } else { format!("t{}", r.target) };
+    let at = if r.abs { format!("{clo}@{}", fmt_f(r.c)) } else { format!("{clo}@(now+{})", fmt_f(r.c)) };
     match r.guard {
         None => format!("    {at}\n"),
         Some(g) => format!("    if (now < {}) {{ {at} }} else {{ nop() }}\n", fmt_f(g as f64)),
@@ -244,6 +256,22 @@ fn req_src(r: &Req) -> String {
 
 fn table_to_source(t: &Table) -> String {
     let mut s = String::new();
+    if t.closure_style {
+        s += "fn mk(p, t0){\n    let x = 0.0\n    letrec gen = | |{\n        x = x + 1.0\n        gen@(now+p)\n    }\n    gen@t0\n    let getter = | | {x}\n    getter\n}\n";
+        for i in 0..t.ntasks {
+            s += &format!("let g{i} = mk({}, {})\n", fmt_f(t.tasks[i][0].c), fmt_f(t.global[i].c));
+        }
+        let mut e = String::from("    g0()");
+        let mut w = WEIGHT;
+        for i in 1..t.ntasks {
+            e += &format!(" + g{i}()*{}.0", w);
+            w *= WEIGHT;
+        }
+        s += "fn dsp(){\n";
+        s += &e;
+        s += "\n}\n";
+        return s;
+    }
     for i in 0..t.ntasks {
         s += &format!("let c{i} = 0.0\n");
     }
@@ -494,10 +522,25 @@ fn gen_req(rng: &mut Rng, ntargets: usize, ticks: u64, abs: bool, boundary: bool
         c = 1048576.0 + k as f64; // far future, never due inside the run
     }
     let guard = if must_guard || rng.chance(1, 2) { Some(1 + rng.below(ticks)) } else { None };
-    Req { abs, c, target, guard }
+    let lambda = rng.chance(1, 4);
+    Req { abs, c, target, guard, lambda }
 }
 
 fn gen_table(rng: &mut Rng, ticks: u64) -> Table {
+    if rng.chance(1, 12) {
+        // fixture shape (`scheduler_counter.mmm`) with a random period and start; a single instance, because several
+        // instances of one closure-making function share their captured cells on the WASM backend (observation F18)
+        let p = (1 + rng.below(6)) as f64 + *rng.pick(&FRACS);
+        let t0 = (1 + rng.below(8)) as f64 + *rng.pick(&FRACS);
+        return Table {
+            ticks,
+            closure_style: true,
+            ntasks: 1,
+            global: vec![Req { abs: true, c: t0, target: 0, guard: None, lambda: false }],
+            tasks: vec![vec![Req { abs: false, c: p, target: 0, guard: None, lambda: false }]],
+            dsp: vec![],
+        };
+    }
     loop {
         let ntasks = 1 + rng.below(4) as usize;
         // 1 in 8 tables contains one boundary request (`trunc when == now`)
@@ -544,7 +587,7 @@ fn gen_table(rng: &mut Rng, ticks: u64) -> Table {
             let abs = rng.chance(1, 10);
             dsp.push(gen_req(rng, ntasks, ticks, abs, b, false));
         }
-        let t = Table { ticks, ntasks, global, tasks, dsp };
+        let t = Table { ticks, closure_style: false, ntasks, global, tasks, dsp };
         if ideal_total(&t, WEIGHT - 1).is_some() && wasm_total(&t, WEIGHT - 1).is_some() {
             return t;
         }
